@@ -75,7 +75,7 @@ def default_payload(k, c):
 
 def bare_path(fid, skin):
     """The path as git prints it after the a/ b/ prefix (inside quotes when quoted)."""
-    name = FILES[fid]
+    name = skin.get("names", FILES)[fid]
     if skin.get("quote"):
         name = "caf\\303\\251" + name
     if skin.get("dir"):
